@@ -293,9 +293,14 @@ fn cmd_replay(args: &[String]) -> i32 {
     let kind = sched::SchedKind::Replay { choices: rf.choices.clone(), randoms: rf.randoms.clone() };
     let mut probes = Probes::default();
     let jd = judge(prop, &sc, kind, 0, rf.hash_seed, &mut probes);
+    let same_tree = rf.repo_src_hash.is_empty() || rf.repo_src_hash == repo_src_hash();
     if let sim::Outcome::ReplayDiverged(d) = &jd.exec.outcome {
-        println!("REPLAY-DIVERGED: {}", d);
-        return 2;
+        if same_tree {
+            println!("REPLAY-DIVERGED: {}", d);
+            return 2;
+        }
+        println!("not reproduced: /repo/src differs from the tree this replay was recorded on and the recorded schedule no longer applies ({})", d);
+        return 0;
     }
     let digest = format!("{:016x}", history_digest(&jd.exec.rec.log));
     let same = jd.verdict.violations.iter().find(|v| v.rule == rf.rule);
@@ -304,20 +309,23 @@ fn cmd_replay(args: &[String]) -> i32 {
             println!("VIOLATION property={} replay={}", v.property, path);
             println!("  rule={} signature={} :: {}", v.rule, v.signature, v.msg);
             if digest != rf.history_digest {
-                println!("REPLAY-DIVERGED: history digest {} != recorded {}", digest, rf.history_digest);
-                return 2;
+                if same_tree {
+                    println!("REPLAY-DIVERGED: history digest {} != recorded {}", digest, rf.history_digest);
+                    return 2;
+                }
+                println!("  (history differs from the recording: /repo/src changed since)");
+                return 1;
             }
             println!("  history digest {} reproduced exactly ({} scheduling choices)", digest, rf.choices.len());
             1
         }
         None => {
-            println!("replay of {} did not reproduce rule {} (digest {} vs {}); violations now: {:?}", path, rf.rule, digest, rf.history_digest, jd.verdict.violations);
-            if digest != rf.history_digest {
-                // the code under test changed (e.g. the defect was repaired): not a harness error
-                0
-            } else {
-                2
+            if same_tree {
+                println!("REPLAY-DIVERGED: rule {} not reproduced on the recorded tree (digest {} vs {})", rf.rule, digest, rf.history_digest);
+                return 2;
             }
+            println!("not reproduced: rule {} does not fire on the current /repo/src (which differs from the recorded tree)", rf.rule);
+            0
         }
     }
 }
